@@ -149,5 +149,59 @@ theorem assign_keeps_prefixFree (k k' : String) (hinc : incomp (k' ++ "__") (k +
     · exact hk'.2 c h0
     · rw [e, incomp_append _ _ _ hinc]; rfl
 
+
+/-- what the build emits for a sequence of Inline nodes: per node `to_onnx` in the shared scope FOLLOWED BY
+    `adapt_inline` (`adaptInline`, with the value names of the build and the node's own opset imports) -/
+def toOnnxAdaptSeq (conv : Graph → Graph) (varNames : List String) (imports : Site → List (String × Nat))
+    (target : Nat) : List Site → Space → Space → Except Err (List Node × Space × Space)
+  | [], v, n => .ok ([], v, n)
+  | s :: ss, v, n =>
+    match toOnnx (s.ctx v n) (normalise s.g) with
+    | .error e => .error e
+    | .ok em =>
+      match adaptInline conv (s.ctx v n) varNames (normalise s.g) em.nodes (defaultImports (imports s)) target with
+      | .error e => .error e
+      | .ok nodes =>
+        match toOnnxAdaptSeq conv varNames imports target ss em.var em.node with
+        | .error e => .error e
+        | .ok (ns, v', n') => .ok (nodes ++ ns, v', n')
+
+/-- a model whose highest default-domain import is the target (or that imports no default domain) is never converted -/
+theorem needsConversion_false_of_source (doms : List String) (imports : List (String × Nat)) (target : Nat)
+    (h : sourceVersion imports = none ∨ sourceVersion imports = some target) :
+    needsConversion doms (defaultImports imports) target = false := by
+  unfold sourceVersion at h
+  unfold needsConversion
+  cases hd : defaultImports imports with
+  | nil => simp
+  | cons v vs =>
+    rw [hd] at h
+    rcases h with h | h
+    · cases h
+    · simp only [Option.some.injEq] at h
+      simp [h]
+
+theorem toOnnxAdaptSeq_eq (conv : Graph → Graph) (varNames : List String) (imports : Site → List (String × Nat))
+    (target : Nat) (sites : List Site)
+    (hk : ∀ s ∈ sites, sourceVersion (imports s) = none ∨ sourceVersion (imports s) = some target) :
+    ∀ v n, toOnnxAdaptSeq conv varNames imports target sites v n = toOnnxSeq sites v n := by
+  induction sites with
+  | nil => intro v n; rfl
+  | cons s ss ih =>
+    intro v n
+    simp only [toOnnxAdaptSeq, toOnnxSeq]
+    cases hem : toOnnx (s.ctx v n) (normalise s.g) with
+    | error e => rfl
+    | ok em =>
+      simp only []
+      have hn := needsConversion_false_of_source (em.nodes.map fun n => n.op.domain) (imports s) target
+        (hk s List.mem_cons_self)
+      have : adaptInline conv (s.ctx v n) varNames (normalise s.g) em.nodes (defaultImports (imports s)) target
+          = .ok em.nodes := by unfold adaptInline; simp [hn]
+      simp only [this, ih (fun t ht => hk t (List.mem_cons_of_mem _ ht))]
+      cases toOnnxSeq ss em.var em.node with
+      | error e => rfl
+      | ok r => obtain ⟨a, b, c⟩ := r; rfl
+
 end
 end Inline
